@@ -213,6 +213,10 @@ def _headers_wholesale(f):
         recv = f.slice(t["args"][0])
         if recv.has_call(r"headers_mut$") and _is_self_headers(f, t["args"][1]):
             return True
+    # `mem::replace(builder_headers, *headers)`: the same whole-map store, the old (empty) map handed back
+    for bb, t in f.live_calls(r"mem::replace$"):
+        if len(t["args"]) == 2 and f.slice(t["args"][0]).has_call(r"response::Builder::headers_mut$") and _is_self_headers(f, t["args"][1]):
+            return True
     return False
 
 
